@@ -339,6 +339,42 @@ def guards_range(term):
     return None
 
 
+# ---- T05-ACC: value records add to what the glyph already carries ----------------------------------------------------------------------
+def t05_acc(run, fx, floors=True):
+    rule = "T05-ACC"
+    run.rule(rule, "value records add to the advance adjustment a glyph already carries (the property's own words; a glyph is reached by a kern pair and "
+                   "a SinglePos, or is second of one pair and first of the next): in the positioning code (gpos.rs) every store to Info::kerning is an "
+                   "accumulation - the stored value is computed from the old value of the same field")
+    n = 0
+    # the legacy kern table is applied instead of GPOS pair positioning, to glyphs that carry no adjustment yet; the value it stores is the
+    # result of the kern sub-tables' own override / minimum / accumulate semantics (read inside its loop), not a GPOS value record
+    exempt = {"gpos::apply_kern"}
+    for b in fx.bodies:
+        if b.file != "src/gpos.rs" or b.exp or b.root in exempt:
+            continue
+        prov = None
+        for bi, blk in enumerate(b.blocks):
+            if not b.reachable(bi):
+                continue
+            for st in blk["s"]:
+                if st["k"] != "assign" or not st["p"]["p"]:
+                    continue
+                fs = [e.get("n") for e in st["p"]["p"] if isinstance(e, dict) and "f" in e]
+                if not fs or fs[-1] != "kerning":
+                    continue
+                prov = prov or sym.Prov(b)
+                n += 1
+                val = prov.rvalue(st["rv"])
+                reads_old = any(x[0] == "field" and x[2] == "kerning" for x in sym.walk(val))
+                if reads_old:
+                    run.ok(rule, "%s: kerning accumulated" % b.root)
+                else:
+                    run.fail(rule, "acc:%s" % b.root, "%s stores %s into Info::kerning without reading the adjustment the glyph already carries: an earlier value record or "
+                             "kern pair on the same glyph is discarded" % (b.path, sym.show(sym.strip(val))[:100]), b.loc(st))
+    if floors:
+        run.floor(rule, "stores to Info::kerning in gpos.rs", n, 3)
+
+
 def check(run, fx, tier, floors=True):
     import ignored
     ignored.run_for(run, fx, 'C05', floors)
@@ -356,6 +392,8 @@ def check(run, fx, tier, floors=True):
     t05_disp(run, fx)
     t05_skip(run, fx)
     t05_base(run, fx)
+    if floors or any(b.file == 'src/gpos.rs' for b in fx.bodies):
+        t05_acc(run, fx, floors)
     if floors or fx.body("gpos::apply_features") is not None:
         t05_order(run, fx)
     if floors or fx.adt("context::IgnoreMarks") is not None:
